@@ -126,6 +126,34 @@ pub fn check_bundle(name: &str, b: &SpendBundle, interned: bool) -> (u64, Vec<(S
             if mem.is_ok() != want { fails.push((format!("{name}/{tag}/mempool-verdict"), format!("run_spendbundle accepted = {}, the rules say {want}", mem.is_ok()))); }
         }
     }
+    // C04: the limit is exact - a budget equal to the cost passes, one less fails - on both paths
+    if let Ok(m) = &mem {
+        for (fl_name, extra) in [("", ConsensusFlags::empty()), ("+cost-conditions", ConsensusFlags::COST_CONDITIONS)] {
+            let fl = flags | extra;
+            let mut a0 = make_allocator(ConsensusFlags::LIMIT_HEAP);
+            let c = match run_spendbundle(&mut a0, b, max, fl, &TEST_CONSTANTS) { Ok((c, _)) => c.cost, Err(_) => continue };
+            let _ = m;
+            n += 1;
+            let mut a1 = make_allocator(ConsensusFlags::LIMIT_HEAP);
+            let at = run_spendbundle(&mut a1, b, c, fl, &TEST_CONSTANTS).map(|x| x.0.cost);
+            let mut a2 = make_allocator(ConsensusFlags::LIMIT_HEAP);
+            let below = if c > 0 { run_spendbundle(&mut a2, b, c - 1, fl, &TEST_CONSTANTS).is_ok() } else { false };
+            if at.as_ref().ok() != Some(&c) || below {
+                fails.push((format!("{name}/{tag}{fl_name}/mempool-exact-limit"), format!("cost {c}: with a budget of exactly {c} run_spendbundle gives {:?}; with {} it accepts = {below}", at.map_err(|e| format!("{e:?}")), c.saturating_sub(1))));
+            }
+            if let Ok(g) = solution_generator(spends_iter()) {
+                if let Ok((_, k)) = run_block_generator2(&g, blocks, max, fl, &Signature::default(), None, &TEST_CONSTANTS) {
+                    n += 1;
+                    let c2 = k.cost;
+                    let at2 = run_block_generator2(&g, blocks, c2, fl, &Signature::default(), None, &TEST_CONSTANTS).map(|x| x.1.cost);
+                    let below2 = run_block_generator2(&g, blocks, c2 - 1, fl, &Signature::default(), None, &TEST_CONSTANTS).is_ok();
+                    if at2.as_ref().ok() != Some(&c2) || below2 {
+                        fails.push((format!("{name}/{tag}{fl_name}/block-exact-limit"), format!("cost {c2}: with a budget of exactly {c2} run_block_generator2 gives {:?}; with {} it accepts = {below2}", at2.map_err(|e| format!("{e:?}")), c2 - 1)));
+                    }
+                }
+            }
+        }
+    }
     for (gname, g) in &gens {
         n += 1;
         let blk = run_block_generator2(g, blocks, max, flags, &Signature::default(), None, &TEST_CONSTANTS).map(|(a2, c)| OwnedSpendBundleConditions::from(&a2, c));
